@@ -31,7 +31,7 @@ type symCase struct {
 	Driver  bool  // go through pprof -symbolize=... -proto instead of calling the symbolizer directly
 }
 
-var namePool = []string{"f1", "_ZN3foo3barEv", "<x>", "ns::T<int>::m(int)", "a<b>", "operator<", "<lambda>", "T<>", "main.go.func1", "java.Class.<init>", "x::y(z)", "", "(anonymous namespace)::f", "<unknown>", "std::vector<int, std::allocator<int> >::push_back"}
+var namePool = []string{"f1", "_ZN3foo3barEv", "<x>", "ns::T<int>::m(int)", "a<b>", "operator<", "<lambda>", "T<>", "main.go.func1", "java.Class.<init>", "x::y(z)", "", "(anonymous namespace)::f", "<unknown>", "std::vector<int, std::allocator<int> >::push_back", "(std::thread::entry)", "(lambda at a.cc:3::operator())", "[abi:cxx11]", "(x)", "()", "<>", "[]", "(a::b)<c>"}
 
 var modes = []string{"", "none", "local", "fastlocal", "remote", "force", "local:force", "remote:force", "demangle=full", "demangle=none", "demangle=templates", "demangle=default", "local:demangle=none", "junk", "fastlocal:force:demangle=templates", "LOCAL"}
 
